@@ -253,6 +253,14 @@ impl LogState {
                         io::stdout().flush()?;
                         eprint!("\r{:<width$.width$}\r", &self.status, width = width);
                     }
+                    #[cfg(feature = "verif-hooks")]
+                    if redo::verif::active() {
+                        // Under the scheduler a poll of the followed log is a scheduling
+                        // point instead of a real-time sleep.
+                        redo::verif::point("log-poll", t.as_str());
+                        delay += Duration::from_millis(10);
+                        continue;
+                    }
                     thread::sleep(cmp::min(delay, Duration::from_secs(1)));
                     delay += Duration::from_millis(10);
                 }
